@@ -171,8 +171,37 @@ def run_case(ctx, case):
     for (n, k) in failing:
         if n not in cols:
             continue           # missing field: no records to flag
-        f = CS.row_flags(cols[n], k, cset['fields'][n][k], sem)
-        if f is None or CS.expected(cols[n], k, cset['fields'][n][k], sem) is None:
+        cval = cset['fields'][n][k]
+        f = CS.row_flags(cols[n], k, cval, sem)
+        if f is None and k in ('min', 'max') and isinstance(cval, dict) and cval.get('precision') == 'open' \
+                and isinstance(cval.get('value'), str) and F.FAMILY[cols[n]['kind']] == 'date':
+            # "open" on a date bound: the documentation does not say whether a record ON the bound violates it,
+            # so either reading is accepted - but detection must flag records under the SAME reading that
+            # verification applies on this tree (the property ties detection to verification): a record
+            # violates iff the one-record frame holding it fails the constraint under verify_df
+            f = []
+            try:
+                with contextlib.redirect_stderr(err), contextlib.redirect_stdout(err):
+                    bdt = CS.parse_dt(cval['value'])
+                    for val in cols[n]['values']:
+                        if val is None:
+                            f.append(None)
+                            continue
+                        vdt = CS.parse_dt(val)
+                        if vdt[0] == bdt[0] and vdt[1] != bdt[1]:
+                            raise ValueError('sub-microsecond difference from the bound: no reading is documented')
+                        one = build({'cols': [dict(cols[n], values=[val])], 'nrows': 1})
+                        fc1 = {k: cval}
+                        if 'type' in cset['fields'][n]:
+                            fc1['type'] = cset['fields'][n]['type']       # (a date bound is only read as a date next to its type)
+                        v1 = verify_df(one, {'fields': {n: fc1}}, repair=False, **kw)
+                        f.append(bool(v1.fields[n][k]))
+                rec.event('flags:verification_reading_used')
+            except Exception:
+                f = None
+            if f is None:
+                documented = False
+        elif f is None or CS.expected(cols[n], k, cval, sem) is None:
             documented = False
         flags[(n, k)] = f
     rec.case(case, nontrivial=bool(failing) and documented, cls=cls)
